@@ -255,9 +255,13 @@ class Model:
                                     else 'leave-sid0', c, ns, h))
                     if len(w.pendcb.get((c, ns), ())) < self._maxcb(c, ns):
                         ops.append(('emitcb', c, ns, h))
-                        if h == self.placement[c]:
+                        if h == self.placement[c] and not (
+                                c == 0 and ns == '/' and w.sidmember):
                             # issued on the client's own host with
-                            # ignore_queue=True (no pub/sub round trip)
+                            # ignore_queue=True (no pub/sub round trip);
+                            # not while clients of other hosts sit in the
+                            # room named after this sid: ignore_queue means
+                            # "this host only"
                             ops.append(('emitcb', c, ns, h, 'iq'))
                 pend = w.pendcb.get((c, ns), ())
                 if (c, ns) in w.acked:
